@@ -1,38 +1,49 @@
 //! C40 — replicated logs never diverge (Raft, Paxos), through hook H3 and the deviation-bounded
 //! explorer: ALL executions with at most `bound` non-default simulator decisions.
-use std::collections::BTreeSet;
-use std::time::Instant;
+use std::collections::{BTreeMap, BTreeSet};
+use std::time::{Duration, Instant};
 
-use hydro_lang::live_collections::stream::{ExactlyOnce, TotalOrder};
+use hydro_lang::live_collections::stream::{ExactlyOnce, NoOrder, TotalOrder};
+use hydro_lang::location::MemberId;
 use hydro_lang::prelude::*;
 use hydro_lang::sim::compiled::CompiledSim;
 use hydro_lang::sim::{SimClusterReceiver, SimClusterSender};
 use hydro_test::cluster::raft::{LogEntry, RaftConfig, Replica, raft};
 use vf_explore::{Chooser, Report, Stats, Value, json};
+use vf_hydro_sim2::paxos_gen::{Acceptor, Ballot, Proposer, verif_paxos_core};
 
 use crate::driver::{RunEnd, run_with_chooser};
 use crate::{Rec, machinery};
 
-const N: usize = 3;
+const N: usize = 3; // Raft members / Paxos acceptors (f = 1)
+const PROPOSERS: usize = 2; // f + 1
 /// Runaway guard: no execution of these bounded inputs comes near this many decisions.
 const MAX_POINTS: usize = 20_000;
 
 #[derive(Clone, Copy, Debug, PartialEq, Eq, Hash)]
-pub struct RaftCfg {
-    pub elections_per_member: usize,
+pub struct Cfg {
+    /// "raft" | "paxos"
+    pub proto: &'static str,
+    /// "concurrent": every input up front, one final drain (repo: fully_concurrent_run_...);
+    /// "seeded": member 0 is elected first behind a quiescence barrier, then everything else at
+    /// once (repo: concurrent_elections_never_fork_..., phase 1 + one burst)
+    pub shape: &'static str,
+    pub elections: usize,
     pub requests: usize,
     pub pumps: usize,
 }
-impl RaftCfg {
+impl Cfg {
     fn key(&self) -> String {
-        format!("e={}|r={}|p={}", self.elections_per_member, self.requests, self.pumps)
+        format!("{}|{}|e={}|r={}|p={}", self.proto, self.shape, self.elections, self.requests, self.pumps)
     }
     fn json(&self) -> Value {
-        json!({"elections_per_member": self.elections_per_member, "requests": self.requests, "pumps": self.pumps})
+        json!({"proto": self.proto, "shape": self.shape, "elections": self.elections, "requests": self.requests, "pumps": self.pumps})
     }
     fn from_json(v: &Value) -> Self {
-        RaftCfg {
-            elections_per_member: v["elections_per_member"].as_u64().unwrap_or(1) as usize,
+        Cfg {
+            proto: if v["proto"] == "paxos" { "paxos" } else { "raft" },
+            shape: if v["shape"] == "seeded" { "seeded" } else { "concurrent" },
+            elections: v["elections"].as_u64().unwrap_or(1) as usize,
             requests: v["requests"].as_u64().unwrap_or(1) as usize,
             pumps: v["pumps"].as_u64().unwrap_or(2) as usize,
         }
@@ -48,7 +59,7 @@ pub struct RaftSim {
     heartbeat: SimClusterSender<(), TotalOrder, ExactlyOnce>,
     request: SimClusterSender<String, TotalOrder, ExactlyOnce>,
     committed: SimClusterReceiver<LogEntry<String>, TotalOrder, ExactlyOnce>,
-    redirected: SimClusterReceiver<(String, Option<hydro_lang::location::MemberId<Replica>>), TotalOrder, ExactlyOnce>,
+    redirected: SimClusterReceiver<(String, Option<MemberId<Replica>>), TotalOrder, ExactlyOnce>,
 }
 
 /// The wiring of the repo's own simulation tests (`fully_concurrent_run_never_forks_...`).
@@ -72,8 +83,46 @@ pub fn build_raft() -> RaftSim {
     RaftSim { sim, election, heartbeat, request, committed, redirected }
 }
 
-/// The safety oracle of the repo's own test.
-pub fn safety(h: &Histories) -> Result<(), (String, String)> {
+pub struct PaxosSim {
+    sim: CompiledSim,
+    election: SimClusterSender<(), TotalOrder, ExactlyOnce>,
+    heartbeat: SimClusterSender<(), TotalOrder, ExactlyOnce>,
+    payload: SimClusterSender<u32, TotalOrder, ExactlyOnce>,
+    ballots: SimClusterReceiver<Ballot, TotalOrder, ExactlyOnce>,
+    committed: SimClusterReceiver<(usize, Option<u32>), NoOrder, ExactlyOnce>,
+}
+
+/// The repo's Paxos (source-included, see build.rs) behind interrupt-driven timers.
+pub fn build_paxos() -> PaxosSim {
+    let mut flow = FlowBuilder::new();
+    let proposers = flow.cluster::<Proposer>();
+    let acceptors = flow.cluster::<Acceptor>();
+    let (election, election_interrupts) = proposers.sim_input();
+    let (heartbeat, heartbeat_interrupts) = proposers.sim_input();
+    let (payload, payloads) = proposers.sim_input::<u32, _, _>();
+    let (ballots, committed) = verif_paxos_core(
+        &proposers,
+        &acceptors,
+        payloads,
+        election_interrupts,
+        heartbeat_interrupts,
+        1,
+        nondet!(/** which proposer leads is non-deterministic */),
+        nondet!(/** payloads may be dropped while the leader changes */),
+    );
+    let ballots = ballots.sim_cluster_output();
+    let committed = committed.sim_cluster_output();
+    let sim = flow
+        .sim()
+        .skip_consistency_assertions()
+        .with_cluster_size(&proposers, PROPOSERS)
+        .with_cluster_size(&acceptors, N)
+        .compiled();
+    PaxosSim { sim, election, heartbeat, payload, ballots, committed }
+}
+
+/// The safety oracle of the repo's own Raft test.
+pub fn raft_safety(h: &Histories) -> Result<(), (String, String)> {
     for (m, hist) in h.iter().enumerate() {
         for (pos, e) in hist.iter().enumerate() {
             if e.2 != pos + 1 {
@@ -93,24 +142,70 @@ pub fn safety(h: &Histories) -> Result<(), (String, String)> {
     Ok(())
 }
 
+/// Paxos: no log position is ever decided with two different values (by any proposers).
+pub fn paxos_safety(c: &[Vec<(usize, Option<u32>)>]) -> Result<(), (String, String)> {
+    let mut by_slot: BTreeMap<usize, BTreeSet<Option<u32>>> = BTreeMap::new();
+    for member in c {
+        for (slot, v) in member {
+            by_slot.entry(*slot).or_default().insert(*v);
+        }
+    }
+    for (slot, vals) in by_slot {
+        if vals.len() > 1 {
+            return Err(("fork".into(), format!("slot {slot} was decided with different values {vals:?}")));
+        }
+    }
+    Ok(())
+}
+
 pub enum Exec {
-    Done(Histories),
+    /// completed: printable outcome (committed histories), safety verdict, whether anything committed
+    Done { outcome: String, verdict: Result<(), (String, String)>, progressed: bool },
     Discarded,
     Panicked(String),
     Capped,
 }
 
-/// One execution of the fully concurrent run (all inputs up front, one final drain).
-pub fn run_raft(rs: &RaftSim, cfg: RaftCfg, ch: &mut Chooser) -> Exec {
+fn finish<T>(end: RunEnd, overflow: bool, rec: &Rec<T>, done: impl FnOnce(T) -> Exec) -> Exec {
+    if overflow {
+        return Exec::Capped;
+    }
+    match end {
+        RunEnd::Completed => match rec.take().pop() {
+            Some(h) => done(h),
+            None => Exec::Panicked("body completed without recording".into()),
+        },
+        RunEnd::Discarded => Exec::Discarded,
+        RunEnd::Panicked(m) => Exec::Panicked(m),
+    }
+}
+
+pub fn run_raft(rs: &RaftSim, cfg: Cfg, ch: &mut Chooser) -> Exec {
     let rec: Rec<Histories> = Rec::new();
     let (end, overflow) = run_with_chooser(&rs.sim, ch, MAX_POINTS, async || {
         let mut sent = 0;
-        for wave in 0..cfg.elections_per_member {
-            for member in 0..N as u32 {
-                rs.election.send(member, ());
-                if sent < cfg.requests {
-                    rs.request.send(member, format!("w{wave}m{member}"));
-                    sent += 1;
+        if cfg.shape == "seeded" {
+            rs.election.send(0, ());
+            hydro_lang::sim::quiesce().await;
+            for wave in 0..cfg.elections {
+                for member in 1..N as u32 {
+                    rs.election.send(member, ());
+                    if sent < cfg.requests {
+                        // alternate between the seeded leader and a challenger
+                        let to = if sent % 2 == 0 { 0 } else { member };
+                        rs.request.send(to, format!("w{wave}m{to}#{sent}"));
+                        sent += 1;
+                    }
+                }
+            }
+        } else {
+            for wave in 0..cfg.elections {
+                for member in 0..N as u32 {
+                    rs.election.send(member, ());
+                    if sent < cfg.requests {
+                        rs.request.send(member, format!("w{wave}m{member}"));
+                        sent += 1;
+                    }
                 }
             }
         }
@@ -123,20 +218,86 @@ pub fn run_raft(rs: &RaftSim, cfg: RaftCfg, ch: &mut Chooser) -> Exec {
         for member in 0..N as u32 {
             let got: Vec<LogEntry<String>> = rs.committed.collect(member).await;
             h[member as usize] = got.into_iter().map(|e| (e.message, e.term_received, e.index)).collect();
-            let _: Vec<(String, Option<hydro_lang::location::MemberId<Replica>>)> = rs.redirected.collect(member).await;
+            let _: Vec<(String, Option<MemberId<Replica>>)> = rs.redirected.collect(member).await;
         }
         rec.push(h);
     });
-    if overflow {
-        return Exec::Capped;
+    finish(end, overflow, &rec, |h| Exec::Done { outcome: format!("{h:?}"), verdict: raft_safety(&h), progressed: h.iter().any(|x| !x.is_empty()) })
+}
+
+pub fn run_paxos(ps: &PaxosSim, cfg: Cfg, ch: &mut Chooser) -> Exec {
+    type Out = (Vec<Vec<(usize, Option<u32>)>>, Vec<Vec<(u32, u32)>>);
+    let rec: Rec<Out> = Rec::new();
+    let (end, overflow) = run_with_chooser(&ps.sim, ch, MAX_POINTS, async || {
+        let mut sent = 0u32;
+        if cfg.shape == "seeded" {
+            ps.election.send(0, ());
+            hydro_lang::sim::quiesce().await;
+            for _wave in 0..cfg.elections {
+                ps.election.send(1, ());
+                if (sent as usize) < cfg.requests {
+                    let to = sent % 2;
+                    ps.payload.send(to, 100 + sent);
+                    sent += 1;
+                }
+            }
+            while (sent as usize) < cfg.requests {
+                ps.payload.send(sent % 2, 100 + sent);
+                sent += 1;
+            }
+        } else {
+            for _wave in 0..cfg.elections {
+                for member in 0..PROPOSERS as u32 {
+                    ps.election.send(member, ());
+                    if (sent as usize) < cfg.requests {
+                        ps.payload.send(member, 100 + sent);
+                        sent += 1;
+                    }
+                }
+            }
+        }
+        for _ in 0..cfg.pumps {
+            for member in 0..PROPOSERS as u32 {
+                ps.heartbeat.send(member, ());
+            }
+        }
+        let mut commits = vec![];
+        let mut leaders = vec![];
+        for member in 0..PROPOSERS as u32 {
+            let got: Vec<(usize, Option<u32>)> = ps.committed.collect_sorted(member).await;
+            commits.push(got);
+            let b: Vec<Ballot> = ps.ballots.collect(member).await;
+            leaders.push(b.into_iter().map(|b| (b.num, b.proposer_id.get_raw_id())).collect());
+        }
+        rec.push((commits, leaders));
+    });
+    finish(end, overflow, &rec, |(c, l)| Exec::Done {
+        outcome: format!("commits {c:?} elected {l:?}"),
+        verdict: paxos_safety(&c),
+        progressed: c.iter().any(|x| !x.is_empty()),
+    })
+}
+
+pub struct Sims {
+    raft: Option<RaftSim>,
+    paxos: Option<PaxosSim>,
+}
+impl Sims {
+    pub fn new() -> Self {
+        Sims { raft: None, paxos: None }
     }
-    match end {
-        RunEnd::Completed => match rec.take().pop() {
-            Some(h) => Exec::Done(h),
-            None => Exec::Panicked("body completed without recording".into()),
-        },
-        RunEnd::Discarded => Exec::Discarded,
-        RunEnd::Panicked(m) => Exec::Panicked(m),
+    pub fn run(&mut self, cfg: Cfg, ch: &mut Chooser) -> Exec {
+        if cfg.proto == "raft" {
+            if self.raft.is_none() {
+                self.raft = Some(build_raft());
+            }
+            run_raft(self.raft.as_ref().unwrap(), cfg, ch)
+        } else {
+            if self.paxos.is_none() {
+                self.paxos = Some(build_paxos());
+            }
+            run_paxos(self.paxos.as_ref().unwrap(), cfg, ch)
+        }
     }
 }
 
@@ -151,19 +312,74 @@ pub struct Explored {
     pub violation: Option<(String, String, Vec<usize>)>,
     pub stopped_by_wall: bool,
 }
+impl Explored {
+    fn merge(&mut self, o: Explored) {
+        self.executions += o.executions;
+        self.discarded += o.discarded;
+        self.capped_runs += o.capped_runs;
+        self.committed_some += o.committed_some;
+        self.max_points = self.max_points.max(o.max_points);
+        self.outcomes.extend(o.outcomes);
+        if self.violation.is_none() {
+            self.violation = o.violation;
+        }
+        self.stopped_by_wall |= o.stopped_by_wall;
+    }
+    fn to_json(&self) -> Value {
+        json!({"executions": self.executions, "discarded": self.discarded, "capped_runs": self.capped_runs, "committed_some": self.committed_some,
+               "max_points": self.max_points, "outcomes": self.outcomes.iter().collect::<Vec<_>>(), "stopped_by_wall": self.stopped_by_wall,
+               "violation": self.violation.as_ref().map(|(k, m, d)| json!({"kind": k, "msg": m, "decisions": d}))})
+    }
+    fn from_json(v: &Value) -> Self {
+        Explored {
+            executions: v["executions"].as_u64().unwrap_or(0),
+            discarded: v["discarded"].as_u64().unwrap_or(0),
+            capped_runs: v["capped_runs"].as_u64().unwrap_or(0),
+            committed_some: v["committed_some"].as_u64().unwrap_or(0),
+            max_points: v["max_points"].as_u64().unwrap_or(0) as usize,
+            outcomes: v["outcomes"].as_array().map(|a| a.iter().filter_map(|s| s.as_str().map(String::from)).collect()).unwrap_or_default(),
+            stopped_by_wall: v["stopped_by_wall"].as_bool().unwrap_or(false),
+            violation: if v["violation"].is_null() {
+                None
+            } else {
+                Some((
+                    v["violation"]["kind"].as_str().unwrap_or("").to_string(),
+                    v["violation"]["msg"].as_str().unwrap_or("").to_string(),
+                    v["violation"]["decisions"].as_array().map(|a| a.iter().map(|x| x.as_u64().unwrap_or(0) as usize).collect()).unwrap_or_default(),
+                ))
+            },
+        }
+    }
+}
 
-/// Deviation-bounded DFS below `start` (a decision prefix), exactly the semantics of
-/// `vf_explore::explore` but resumable from a prefix so that subtrees can be sharded.
-pub fn explore_from(
-    start: Vec<usize>,
-    start_is_root: bool,
-    bound: usize,
-    deadline: Option<Instant>,
-    mut run: impl FnMut(&mut Chooser) -> Exec,
-) -> Explored {
+/// Children of an executed prefix: one more non-default decision at any later point, if the
+/// deviation budget allows (identical to `vf_explore::explore`).
+fn children(ch: &Chooser, plen: usize, bound: usize) -> Vec<Vec<usize>> {
+    let choices = ch.choices();
+    let mut cost = ch.trace[..plen].iter().filter(|p| p.costly && p.choice != 0).count();
+    let mut next = vec![];
+    for i in plen..ch.trace.len() {
+        let p = ch.trace[i];
+        if cost + 1 <= bound {
+            for alt in 1..p.n {
+                let mut np: Vec<usize> = choices[..i].to_vec();
+                np.push(alt);
+                next.push(np);
+            }
+        }
+        if p.costly && p.choice != 0 {
+            cost += 1;
+        }
+    }
+    next
+}
+
+/// Deviation-bounded DFS over the subtrees rooted at `starts` (decision prefixes), with exactly
+/// the semantics of `vf_explore::explore`, but resumable from prefixes so subtrees can be sharded.
+pub fn explore_from(starts: Vec<Vec<usize>>, bound: usize, deadline: Option<Instant>, mut run: impl FnMut(&mut Chooser) -> Exec) -> Explored {
     let mut out = Explored::default();
-    let mut stack: Vec<Vec<usize>> = vec![start];
-    let mut first = true;
+    let mut stack: Vec<Vec<usize>> = starts;
+    stack.reverse();
     while let Some(prefix) = stack.pop() {
         if let Some(d) = deadline
             && Instant::now() > d
@@ -179,91 +395,110 @@ pub fn explore_from(
         if ch.trace.len() < plen {
             machinery("execution consumed fewer decisions than its prefix (non-deterministic simulation)");
         }
-        let choices = ch.choices();
         match ex {
-            Exec::Done(h) => {
-                if h.iter().any(|x| !x.is_empty()) {
+            Exec::Done { outcome, verdict, progressed } => {
+                if progressed {
                     out.committed_some += 1;
                 }
-                out.outcomes.insert(format!("{h:?}"));
-                if let Err((kind, msg)) = safety(&h)
+                if let Err((kind, msg)) = verdict
                     && out.violation.is_none()
                 {
-                    out.violation = Some((kind, format!("{msg}; histories {h:?}"), choices.clone()));
+                    out.violation = Some((kind, format!("{msg}; outcome {outcome}"), ch.choices()));
                 }
+                out.outcomes.insert(outcome);
             }
             Exec::Discarded => out.discarded += 1,
             Exec::Capped => out.capped_runs += 1,
             Exec::Panicked(m) => {
                 out.outcomes.insert(format!("panic:{}", m.chars().take(80).collect::<String>()));
                 if out.violation.is_none() {
-                    out.violation = Some(("panic".into(), format!("execution panicked: {}", m.chars().take(400).collect::<String>()), choices.clone()));
+                    out.violation = Some(("panic".into(), format!("execution panicked: {}", m.chars().take(400).collect::<String>()), ch.choices()));
                 }
             }
         }
-        // children: one more non-default decision at any later point, within the bound
-        let skip_children_of_root = first && !start_is_root && false;
-        first = false;
-        if skip_children_of_root {
-            continue;
-        }
-        let mut cost = ch.trace[..plen].iter().filter(|p| p.costly && p.choice != 0).count();
-        let mut next = vec![];
-        for i in plen..ch.trace.len() {
-            let p = ch.trace[i];
-            if cost + 1 <= bound {
-                for alt in 1..p.n {
-                    let mut np: Vec<usize> = choices[..i].to_vec();
-                    np.push(alt);
-                    next.push(np);
-                }
-            }
-            if p.costly && p.choice != 0 {
-                cost += 1;
-            }
-        }
+        let mut next = children(&ch, plen, bound);
         next.reverse();
         stack.extend(next);
     }
     out
 }
 
-fn configs(thorough: bool) -> Vec<RaftCfg> {
-    if thorough {
-        vec![
-            RaftCfg { elections_per_member: 1, requests: 1, pumps: 2 },
-            RaftCfg { elections_per_member: 1, requests: 2, pumps: 3 },
-            RaftCfg { elections_per_member: 2, requests: 2, pumps: 4 },
-        ]
-    } else {
-        vec![RaftCfg { elections_per_member: 1, requests: 1, pumps: 2 }, RaftCfg { elections_per_member: 2, requests: 2, pumps: 2 }]
+fn configs(thorough: bool) -> Vec<Cfg> {
+    let mut v = vec![];
+    for proto in ["raft", "paxos"] {
+        v.push(Cfg { proto, shape: "concurrent", elections: 1, requests: 1, pumps: 2 });
+        v.push(Cfg { proto, shape: "seeded", elections: 1, requests: 2, pumps: 2 });
+        if thorough {
+            v.push(Cfg { proto, shape: "concurrent", elections: 2, requests: 2, pumps: 3 });
+            v.push(Cfg { proto, shape: "seeded", elections: 2, requests: 2, pumps: 4 });
+        }
     }
+    v
 }
 
-pub fn worker(_spec: &str) {
-    machinery("worker mode not implemented");
+/// Worker process: explores the shard `index % nshards == shard` of the root's children.
+pub fn worker(spec: &str) {
+    let v: Value = vf_explore::serde_json::from_str(spec).unwrap_or_else(|e| machinery(&format!("bad worker spec: {e}")));
+    let cfg = Cfg::from_json(&v["cfg"]);
+    let bound = v["bound"].as_u64().unwrap_or(1) as usize;
+    let (shard, nshards) = (v["shard"].as_u64().unwrap_or(0) as usize, v["nshards"].as_u64().unwrap_or(1) as usize);
+    let deadline = Instant::now() + Duration::from_secs(v["wall_s"].as_u64().unwrap_or(600));
+    let mut sims = Sims::new();
+    let mut root = Chooser::replay(vec![]);
+    let _ = sims.run(cfg, &mut root);
+    let starts: Vec<Vec<usize>> = children(&root, 0, bound).into_iter().enumerate().filter(|(i, _)| i % nshards == shard).map(|(_, p)| p).collect();
+    let ex = explore_from(starts, bound, Some(deadline), |ch| sims.run(cfg, ch));
+    println!("VF_SIM2_RESULT {}", ex.to_json());
+}
+
+fn explore_sharded(cfg: Cfg, bound: usize, nshards: usize, wall_s: u64, root: Explored) -> Explored {
+    let exe = std::env::current_exe().unwrap_or_else(|e| machinery(&format!("current_exe: {e}")));
+    let mut kids = vec![];
+    for shard in 0..nshards {
+        let spec = json!({"cfg": cfg.json(), "bound": bound, "shard": shard, "nshards": nshards, "wall_s": wall_s}).to_string();
+        let child = std::process::Command::new(&exe)
+            .args(["--property", "C40", "--tier", "thorough"])
+            .env("VF_SIM2_WORKER", spec)
+            .stdout(std::process::Stdio::piped())
+            .stderr(std::process::Stdio::null())
+            .spawn()
+            .unwrap_or_else(|e| machinery(&format!("cannot spawn worker: {e}")));
+        kids.push(child);
+    }
+    let mut total = root;
+    for (i, k) in kids.into_iter().enumerate() {
+        let out = k.wait_with_output().unwrap_or_else(|e| machinery(&format!("worker {i}: {e}")));
+        let txt = String::from_utf8_lossy(&out.stdout);
+        let Some(line) = txt.lines().find_map(|l| l.strip_prefix("VF_SIM2_RESULT ")) else {
+            machinery(&format!("worker {i} of {} produced no result (status {:?}): {}", cfg.key(), out.status, txt.chars().take(400).collect::<String>()));
+        };
+        let v: Value = vf_explore::serde_json::from_str(line).unwrap_or_else(|e| machinery(&format!("worker {i}: bad result: {e}")));
+        total.merge(Explored::from_json(&v));
+    }
+    total
 }
 
 pub fn run(rep: &mut Report, thorough: bool, replay: Option<Value>) {
-    rep.rule = "case = (protocol, input configuration, simulator decision vector); default decision = first ready tick / release everything; ALL executions with at most `bound` non-default decisions anywhere in the run are enumerated (deviation-bounded DFS through hook H3); distinct = committed histories of all members".into();
-    rep.explanation = "exhaustive WITHIN the stated deviation bound (CHESS-style), not over all schedules: every enumerated execution of the repo's Raft wiring (3 members, fail-stop TCP, all timer interrupts / requests / heartbeat pumps sent up front, one final drain) is judged by the repo's own safety oracle: per member contiguous committed indices from 1, pairwise no fork at any committed position, no panic (truncation guard)".into();
+    rep.rule = "case = (protocol, body shape, input configuration, simulator decision vector); default decision = first ready tick / release everything; ALL executions with at most `bound` non-default decisions anywhere in the run are enumerated (deviation-bounded DFS through hook H3); distinct = committed histories of all members".into();
+    rep.explanation = "exhaustive WITHIN the stated deviation bound (CHESS-style), NOT over all schedules. Raft: the repo's wiring and test bodies (3 members, fail-stop TCP; all timer interrupts / requests / heartbeat pumps up front, or member 0 elected first behind a quiescence barrier), judged by the repo's own oracle: per member contiguous committed indices from 1, pairwise no fork at any committed position, no panic (truncation guard). Paxos: the repo's paxos.rs source (2 proposers, 3 acceptors, f=1) with its wall-clock heartbeat/timeout sources replaced by interrupt inputs; oracle: no slot decided with two different values by any proposers, no panic".into();
     rep.assume("hook H3 (CompiledSim::verif_run_with_driver, cargo feature hydro_verif) replaces only the source of decisions");
     rep.assume("fail-stop network model of the repo's tests; no message loss");
+    rep.assume("paxos_core itself cannot run in the simulator (sample_every / timeout / source_interval_delayed need a tokio timer); the checker compiles the text of /repo/hydro_test/src/cluster/paxos.rs into its own crate and calls its private functions through a copy of the paxos_core/leader_election wiring in which only p_leader_heartbeat is replaced by interrupt-driven timers (wiring/paxos_wiring.rs.in)");
     let bound = if thorough { 2 } else { 1 };
     rep.bound("deviation_bound", bound);
-    rep.bound("cluster_size", N);
+    rep.bound("raft_members", N);
+    rep.bound("paxos_proposers_acceptors", json!([PROPOSERS, N]));
 
-    let rs = build_raft();
+    let mut sims = Sims::new();
 
     if let Some(c) = replay {
-        let cfg = RaftCfg::from_json(&c["config"]);
+        let cfg = Cfg::from_json(&c["config"]);
         let dec: Vec<usize> = c["decisions"].as_array().map(|a| a.iter().map(|x| x.as_u64().unwrap_or(0) as usize).collect()).unwrap_or_default();
         let mut ch = Chooser::replay(dec);
-        let ex = run_raft(&rs, cfg, &mut ch);
-        let code = match ex {
-            Exec::Done(h) => {
-                println!("replay: histories {h:?}");
-                match safety(&h) {
+        let code = match sims.run(cfg, &mut ch) {
+            Exec::Done { outcome, verdict, .. } => {
+                println!("replay {}: {outcome}", cfg.key());
+                match verdict {
                     Ok(()) => 0,
                     Err((k, m)) => {
                         println!("replay: {k}: {m}");
@@ -287,28 +522,36 @@ pub fn run(rep: &mut Report, thorough: bool, replay: Option<Value>) {
         std::process::exit(code);
     }
 
-    let wall = if thorough { 900 } else { 60 };
-    let deadline = Instant::now() + std::time::Duration::from_secs(wall);
-    rep.bound("wall_cap_s", wall);
-    for cfg in configs(thorough) {
+    let cfgs = configs(thorough);
+    let wall_per_cfg: u64 = if thorough { 140 } else { 20 };
+    rep.bound("wall_cap_s_per_config", wall_per_cfg);
+    let nshards = if thorough { vf_explore::ncpu().clamp(1, 12) } else { 1 };
+    for cfg in cfgs {
         let mut st = Stats::new();
+        let t0 = Instant::now();
         // determinism guard: the default execution twice
         let mut c1 = Chooser::replay(vec![]);
-        let e1 = run_raft(&rs, cfg, &mut c1);
+        let e1 = sims.run(cfg, &mut c1);
         let mut c2 = Chooser::replay(vec![]);
-        let e2 = run_raft(&rs, cfg, &mut c2);
+        let e2 = sims.run(cfg, &mut c2);
         let same = c1.trace == c2.trace
             && match (&e1, &e2) {
-                (Exec::Done(a), Exec::Done(b)) => a == b,
+                (Exec::Done { outcome: a, .. }, Exec::Done { outcome: b, .. }) => a == b,
                 _ => false,
             };
         if !same {
-            machinery(&format!("raft {}: the default execution is not reproducible ({} vs {} decisions)", cfg.key(), c1.trace.len(), c2.trace.len()));
+            machinery(&format!("{}: the default execution is not reproducible ({} vs {} decisions)", cfg.key(), c1.trace.len(), c2.trace.len()));
         }
-        let t0 = Instant::now();
-        let ex = explore_from(vec![], true, bound, Some(deadline), |ch| run_raft(&rs, cfg, ch));
+        let deadline = Instant::now() + Duration::from_secs(wall_per_cfg);
+        let ex = if nshards > 1 {
+            // root execution here, its subtrees in worker processes (simulator instances are !Send)
+            let root = explore_from(vec![vec![]], 0, None, |ch| sims.run(cfg, ch));
+            explore_sharded(cfg, bound, nshards, wall_per_cfg, root)
+        } else {
+            explore_from(vec![vec![]], bound, Some(deadline), |ch| sims.run(cfg, ch))
+        };
         println!(
-            "  [raft {}] bound={} executions={} discarded={} capped_runs={} committed_something={} distinct_outcomes={} max_decisions={} wall={:.1}s{}",
+            "  [{}] bound={} executions={} discarded={} capped_runs={} committed_something={} distinct_outcomes={} max_decisions={} wall={:.1}s{}",
             cfg.key(),
             bound,
             ex.executions,
@@ -322,30 +565,30 @@ pub fn run(rep: &mut Report, thorough: bool, replay: Option<Value>) {
         );
         st.evaluations = ex.executions;
         for o in &ex.outcomes {
-            st.outcome(&("raft", o));
-            st.nontrivial(&("raft", cfg.key(), o));
+            st.outcome(&(cfg.proto, o));
+            st.nontrivial(&(cfg.key(), o));
         }
-        st.sample(|| json!({"protocol": "raft", "config": cfg.json(), "executions": ex.executions, "discarded": ex.discarded, "executions_with_commits": ex.committed_some,
+        st.sample(|| json!({"config": cfg.json(), "executions": ex.executions, "discarded": ex.discarded, "executions_with_commits": ex.committed_some,
                             "distinct_outcomes": ex.outcomes.len(), "max_decisions": ex.max_points, "one_outcome": ex.outcomes.iter().next_back()}));
         if ex.stopped_by_wall {
-            st.cap(format!("raft {}: wall cap {}s hit after {} executions at bound {}", cfg.key(), wall, ex.executions, bound));
+            st.cap(format!("{}: wall cap {}s hit after {} executions at bound {}", cfg.key(), wall_per_cfg, ex.executions, bound));
         }
         if ex.capped_runs > 0 {
-            st.cap(format!("raft {}: {} executions exceeded {} decisions", cfg.key(), ex.capped_runs, MAX_POINTS));
+            st.cap(format!("{}: {} executions exceeded {} decisions", cfg.key(), ex.capped_runs, MAX_POINTS));
         }
         if let Some((kind, msg, dec)) = ex.violation {
             // re-execute once more before reporting
             let mut ch = Chooser::replay(dec.clone());
-            let again = match run_raft(&rs, cfg, &mut ch) {
-                Exec::Done(h) => safety(&h).is_err(),
+            let again = match sims.run(cfg, &mut ch) {
+                Exec::Done { verdict, .. } => verdict.is_err(),
                 Exec::Panicked(_) => true,
                 _ => false,
             };
             if !again {
-                machinery(&format!("raft {}: violation did not reproduce for decisions {dec:?}", cfg.key()));
+                machinery(&format!("{}: violation did not reproduce for decisions {dec:?}", cfg.key()));
             }
-            st.violation(format!("C40|raft|{}|{kind}", cfg.key()), format!("raft {}: {msg}; decisions {dec:?}", cfg.key()), json!({"protocol": "raft", "config": cfg.json(), "decisions": dec}));
+            st.violation(format!("C40|{}|{kind}", cfg.key()), format!("{}: {msg}; decisions {dec:?}", cfg.key()), json!({"config": cfg.json(), "decisions": dec}));
         }
-        rep.section(&format!("raft_{}", cfg.key()), st);
+        rep.section(&cfg.key(), st);
     }
 }
